@@ -108,6 +108,25 @@ class RandomShim:
             raise IndexError("Cannot choose from an empty sequence")
         return seq[self._ch.choose(len(seq), "choice")]
 
+    def choices(self, population, weights=None, *, cum_weights=None, k=1):
+        # ordered samples *with* replacement: every k-tuple (whatever the weights, every index of non-zero weight is
+        # possible; indices of zero weight are left out)
+        pop = list(population)
+        if not pop:
+            raise IndexError("Cannot choose from an empty sequence")
+        w = None
+        if weights is not None:
+            w = list(weights)
+        elif cum_weights is not None:
+            cw = list(cum_weights)
+            w = [cw[0]] + [cw[i] - cw[i - 1] for i in range(1, len(cw))]
+        idx = [i for i in range(len(pop)) if w is None or w[i] > 0]
+        return [pop[idx[self._ch.choose(len(idx), "choices")]] for _ in range(k)]
+
+    def uniform(self, a, b):
+        # used in threshold-like arithmetic only: two representative values near the ends
+        return a + (b - a) * (self.LO if self._ch.choose(2, "uniform") == 0 else self.HI)
+
     def shuffle(self, x):
         pool = list(x)
         for i in range(len(x)):
@@ -252,7 +271,8 @@ def own_rng(ch, horizon=None, geometric_modules=GEOMETRIC_MODULES):
     rs, ns, nxs = RandomShim(ch), _NpRandom(ch), NxShim(ch)
     with contextlib.ExitStack() as st:
         st.enter_context(patched("random", seed=rs.seed, random=rs.random, sample=rs.sample, choice=rs.choice,
-                                 shuffle=rs.shuffle, randrange=rs.randrange, randint=rs.randint))
+                                 shuffle=rs.shuffle, randrange=rs.randrange, randint=rs.randint, choices=rs.choices,
+                                 uniform=rs.uniform))
         st.enter_context(patched("numpy.random", seed=ns.seed, random=ns.random, rand=ns.rand, choice=ns.choice,
                                  permutation=ns.permutation, randint=ns.randint))
         st.enter_context(patched("networkx", fast_gnp_random_graph=nxs.fast_gnp_random_graph))
